@@ -33,6 +33,24 @@ From PMS Require Import Base.PyStr Base.Exn Model.Codec Model.TableTypes Gen.Tab
 Import ListNotations.
 Open Scope Z_scope.
 
+(* ------------------------------------------------------------------ 0. the reference automaton *)
+
+(* the automaton of Spec/OtaSession.v has the shape the property asks for: the config response
+   is repeated until the first block request and then withheld; Fetching absorbs every input
+   but Update; Update restarts from any state; Malformed is a no-op *)
+Theorem C10_spec_progress :
+  forall k k' i, srun (Requested k) [CfgReq; CfgReq; BlkReq k' i; CfgReq] =
+                 (Fetching k, [CfgResp k; CfgResp k; BlkResp k' i; NoOut]).
+Proof. exact spec_progress. Qed.
+Theorem C10_spec_no_reflash :
+  forall k is, forallb (fun i => negb (is_update i)) is = true ->
+    fst (srun (Fetching k) is) = Fetching k /\
+    forallb (fun o => negb (is_cfg_resp o)) (snd (srun (Fetching k) is)) = true.
+Proof. exact spec_no_reflash. Qed.
+Theorem C10_spec_restart_and_malformed :
+  forall s k, fst (sstep s (Update k)) = Requested k /\ sstep s Malformed = (s, NoOut).
+Proof. exact spec_restart_malformed. Qed.
+
 (* ------------------------------------------------------------------ 1. abstraction and invariant *)
 
 (* under the invariant, abs is the graph of "store X holds n": it does not depend on the order
@@ -530,6 +548,9 @@ Example C10_ex_threaded :
             nth 1 (rev (g_log g)) (ERaise OtherError) = ECallback (mkMsg 1 255 4 0 0 (s2p "01000100000000000000")) t.
 Proof. vm_compute. split; [reflexivity|]. eexists. split; reflexivity. Qed.
 
+Print Assumptions C10_spec_progress.
+Print Assumptions C10_spec_no_reflash.
+Print Assumptions C10_spec_restart_and_malformed.
 Print Assumptions C10_abs_well_defined.
 Print Assumptions C10_reachable_invariant.
 Print Assumptions C10_step_invariant.
